@@ -367,6 +367,121 @@ func hclFilesOp(d dialect, a dsch) *op {
 	return o
 }
 
+// richDoc is a document that uses what a multi-tenant project uses: input variables, locals,
+// for_each, two schemas with a table of the same name in both (qualified references) and, for
+// PostgreSQL, an enum. It drives the evaluator's variable / reference / block-registry maps.
+const richDoc = `
+variable "tenants" {
+  type    = list(string)
+  default = ["a", "b", "c"]
+}
+variable "size" {
+  type    = number
+  default = 10
+}
+locals {
+  prefix = "p"
+  width  = 7
+}
+schema "s1" {}
+schema "s2" {}
+ENUM
+table "s1" "users" {
+  schema = schema.s1
+  column "id" {
+    type = int
+  }
+  column "st" {
+    type = STTYPE
+  }
+  column "w" {
+    type = varchar(local.width)
+  }
+  primary_key {
+    columns = [column.id]
+  }
+  index "users_w" {
+    columns = [column.w]
+  }
+}
+table "s2" "users" {
+  schema = schema.s2
+  column "id" {
+    type = int
+  }
+  column "owner" {
+    type = int
+  }
+  primary_key {
+    columns = [column.id]
+  }
+  foreign_key "owner_fk" {
+    columns     = [column.owner]
+    ref_columns = [table.s1.users.column.id]
+  }
+}
+table "tenant" {
+  for_each = toset(var.tenants)
+  schema   = schema.s2
+  column "id" {
+    type = int
+  }
+  column "v" {
+    type = varchar(var.size)
+  }
+}
+table "audit" {
+  schema = schema.s1
+  column "id" {
+    type = int
+  }
+  column "who" {
+    type = int
+  }
+  foreign_key "who_fk" {
+    columns     = [column.who]
+    ref_columns = [table.s2.users.column.id]
+  }
+}
+`
+
+func richOp(d dialect, size int) *op {
+	o := &op{name: "hcl-rich/" + d.name}
+	doc := richDoc
+	if d.name == "postgres" {
+		doc = strings.Replace(doc, "ENUM", "enum \"status\" {\n  schema = schema.s1\n  values = [\"on\", \"off\"]\n}", 1)
+		doc = strings.Replace(doc, "STTYPE", "enum.status", 1)
+	} else {
+		doc = strings.Replace(doc, "ENUM", "", 1)
+		doc = strings.Replace(doc, "STTYPE", "int", 1)
+	}
+	o.steps = []func() error{func() error {
+		var r schema.Realm
+		if err := d.eval([]byte(doc), &r, map[string]cty.Value{"size": cty.NumberIntVal(int64(size))}); err != nil {
+			return fmt.Errorf("eval rich document: %w", err)
+		}
+		var b strings.Builder
+		for _, s := range r.Schemas {
+			fmt.Fprintf(&b, "schema %s objects=%d\n", s.Name, len(s.Objects))
+			for _, tb := range s.Tables {
+				fmt.Fprintf(&b, " table %s\n", tb.Name)
+				for _, c := range tb.Columns {
+					fmt.Fprintf(&b, "  column %s %T %s\n", c.Name, c.Type.Type, c.Type.Raw)
+				}
+				for _, ix := range tb.Indexes {
+					fmt.Fprintf(&b, "  index %s %d\n", ix.Name, len(ix.Parts))
+				}
+				for _, fk := range tb.ForeignKeys {
+					fmt.Fprintf(&b, "  fk %s -> %s.%s\n", fk.Symbol, fk.RefTable.Schema.Name, fk.RefTable.Name)
+				}
+			}
+		}
+		o.out = []byte(b.String())
+		return nil
+	}}
+	return o
+}
+
 func sumOp(files map[string]string) *op {
 	o := &op{name: "dir-sum"}
 	dir := &migrate.MemDir{}
@@ -438,6 +553,7 @@ func (sc scenario) ops(perm func(int) []int) []*op {
 	for _, d := range dialects {
 		out = append(out, planOp(d, sc.a, sc.b, perm), hclOp(d, sc.a), hclFilesOp(d, sc.a))
 	}
+	out = append(out, richOp(dialects[1], 10+len(sc.files)), richOp(dialects[2], 10+len(sc.files)))
 	return append(out, sumOp(sc.files))
 }
 
